@@ -23,7 +23,17 @@ def cases(tier, rng):
                     gates=("X", "H", "prepare_all", "prepare_all", "measure_all", "measure_all"), max_depth=2)
         p = g.program()
         if i % 4 == 0:
-            p["body"].insert(rng.randrange(len(p["body"]) + 1), ("sub", None, [("gate", "X", [("q", "q", 0)])]))
+            # a subcircuit block is prepare_all; body; measure_all - also when the body itself begins with a prepare_all or
+            # ends with a measure_all (the latter is ill-bracketed: two measures in a row)
+            body = [("gate", "X", [("q", "q", 0)])]
+            v = (i // 4) % 4
+            if v == 1:
+                body = [("gate", "prepare_all", [])] + body
+            elif v == 2:
+                body = body + [("gate", "measure_all", [])]
+            elif v == 3:
+                body = [("gate", "measure_all", [])] + body
+            p["body"].insert(rng.randrange(len(p["body"]) + 1), ("sub", None, body))
         text = ref.to_text(p)
         try:
             ref.static_valid(p)
